@@ -31,6 +31,8 @@ structure MountType where
   inShadow : Bool
   stDev : Bytes
   root : Bytes
+  id : Bytes := []        -- mount ID and parent ID as listed ("" if unknown)
+  parent : Bytes := []
   deriving Repr, DecidableEq, BEq
 
 /-- `roots`: mountpoints showing the root of the file system; `subroots`: (root, mountpoint)
@@ -105,7 +107,7 @@ def probeLine (st : PState) (line : Bytes) : Res PState :=
       let inShadow := !isShadowing && parentShadow
       let mk (o : OvlOpts) : PState :=
         { m := { list := st.m.list ++ [⟨o.lower, mtpoint, o.upper, o.work, fstype, options,
-                                         inShadow, stDev, root⟩],
+                                         inShadow, stDev, root, mountID, parentID⟩],
                  devices := addDevice st.m.devices stDev fsname root mtpoint },
           shadow := shadow' }
       if fstype = b!"overlay" then
@@ -159,6 +161,40 @@ def getMountSources (m : Mounts) (mnt : MountType) : Res (List Bytes) :=
 
 def mountSourceIsExpected (m : Mounts) (mnt : MountType) (test : Bytes) : Res Bool :=
   (getMountSources m mnt).map (·.contains test)
+
+/-! ### GetMountAndSubmounts (after fix 05db66c): along the mount tree when a mount is covered -/
+
+/-- `MountType.covers`: `a` and `b` hang below the same mount and `b`'s mountpoint lies below
+    `a`'s; then `a` was mounted after `b`, over the directory that holds `b`'s mountpoint -/
+def covers (a b : MountType) : Bool :=
+  a.id.length > 0 && a.id != b.id && a.parent.length > 0 && a.parent == b.parent &&
+    hasPrefix b.mountpoint (a.mountpoint ++ [47])
+
+/-- `mountList.hasCoveredMount` -/
+def hasCoveredMount (l : List MountType) : Bool := l.any fun a => l.any fun b => covers a b
+
+/-- one round of `inTreeOrder`'s loop, first half: the level of `m` in the mount tree and the
+    place after the mount it hangs below (the first placed mount with that id) and everything
+    already placed below that: `(level, front, back)`, `m` goes between `front` and `back` -/
+def placeBelow (out : List (MountType × Nat)) (m : MountType) :
+    Nat × List (MountType × Nat) × List (MountType × Nat) :=
+  match out.dropWhile (fun (p : MountType × Nat) => !(p.1.id == m.parent)) with
+  | par :: after =>
+    (par.2 + 1,
+     out.takeWhile (fun (p : MountType × Nat) => !(p.1.id == m.parent)) ++
+       par :: after.takeWhile (fun (q : MountType × Nat) => decide (q.2 > par.2)),
+     after.dropWhile (fun (q : MountType × Nat) => decide (q.2 > par.2)))
+  | [] => (0, out, [])
+
+/-- … second half: in front of the first placed mount that covers it, if there is one -/
+def insertTree (out : List (MountType × Nat)) (m : MountType) : List (MountType × Nat) :=
+  match out.dropWhile (fun (a : MountType × Nat) => !(covers a.1 m)) with
+  | a :: back =>
+    out.takeWhile (fun (a : MountType × Nat) => !(covers a.1 m)) ++ (m, (placeBelow out m).1) :: a :: back
+  | [] => (placeBelow out m).2.1 ++ (m, (placeBelow out m).1) :: (placeBelow out m).2.2
+
+/-- `mountList.inTreeOrder` -/
+def inTreeOrder (l : List MountType) : List MountType := (l.foldl insertTree []).map (·.1)
 
 def overlayLowerdirs (m : Mounts) : List Bytes :=
   (m.list.filter (·.fstype == b!"overlay")).map (·.source)
